@@ -8,7 +8,8 @@ CONSTANTS
   Modes = {"normal", "coro"}
   Typed = FALSE
   Ops = {"ConstructEmpty", "ConstructH", "MoveConstruct", "AddHandle", "AddFill", "MergeShl", "MoveAssign", "Pop", "Clear", "Destroy", "CoAwait", "Pause"}
+  Fixed = TRUE
   Targets = {}
-INVARIANTS TypeOK RepOK Conservation NoDoubleResume NoLeak
-PROPERTIES InlineNoAlloc MovedFromIsEmpty EmptyResumesNothing ValuePreserved ResumeOrder QueueFIFO
+INVARIANTS TypeOK RepOK NoDoubleResume Conservation NoLeak
+PROPERTIES InlineNoAlloc MovedFromIsEmpty EmptyResumesNothing ValuePreserved ReadsAgree ResumeOrder QueueFIFO
 CHECK_DEADLOCK FALSE
